@@ -241,7 +241,10 @@ def rule_listings(ctx: Ctx) -> None:
     ys = [n for n in ast.walk(lp) if isinstance(n, ast.Yield)]
     apps = [c for c in A.calls(lp, shallow=False) if (A.call_name(c) or "") == "new_open_items.append"]
     ctx.require(ys and apps, "C05.5: get_open lost its yield / re-index append")
-    for node, what in ((ys[0], "yielded"), (apps[0], "kept by the re-index")):
+    yt = guard_terms(ys[0])
+    ctx.check(f"{item}.is_open" in yt, "C05.5", "only items that are open are yielded", go, A.stmt_of(ys[0]), f"guards {yt}",
+              "closed items can be yielded as open")
+    for node, what in ((apps[0], "kept by the re-index"),):
         terms = guard_terms(node)
         extra = [t for t in terms if t not in allowed]
         ctx.check(not extra and f"{item}.is_open" in terms, "C05.5", f"every item that is still open is {what}", go, A.stmt_of(node),
